@@ -490,6 +490,27 @@ def fix_starred_imports(source: str) -> str:
             yield node, None
 
 
+def _may_be_bound_between(root: ast.Module, name: str, start_lineno: int, end_lineno: int) -> bool:
+    """Determine if name may be bound on any line from start_lineno to before end_lineno."""
+    for node in core.walk(root, (ast.Import, ast.ImportFrom)):
+        if start_lineno <= node.lineno < end_lineno and any(
+            alias.name == "*" or (alias.asname or alias.name.split(".")[0]) == name
+            for alias in node.names
+        ):
+            return True
+
+    return any(
+        start_lineno <= node.lineno < end_lineno
+        for node in core.walk(
+            root,
+            (
+                ast.Name(id=name, ctx=ast.Store),
+                ast.FunctionDef(name=name),
+                ast.AsyncFunctionDef(name=name),
+                ast.ClassDef(name=name),
+    )))
+
+
 @processing.fix
 def fix_reimported_names(source: str) -> str:
     """Remove reimported names from imports."""
@@ -547,6 +568,12 @@ def fix_reimported_names(source: str) -> str:
             referenced_name = asname if asname else name
 
             if name == "*":
+                node_names.append(alias)
+                continue
+
+            # The new import goes to the top of the imports. If anything in between binds the
+            # name, or may bind it, the name would no longer mean what this import says.
+            if _may_be_bound_between(root, referenced_name, import_insert_lineno, node.lineno):
                 node_names.append(alias)
                 continue
 
